@@ -184,7 +184,8 @@ class SymArr(np.ndarray):
         return wrap(np.ndarray.squeeze(np.asarray(self), *a, **k))
 
     def astype(self, dtype, **kw):
-        return self.copy()
+        from .overlay import _cast
+        return _cast(self.copy(), dtype)
 
     def item(self, *a):
         return np.asarray(self).item(*a)
